@@ -50,6 +50,27 @@ def _b_two_raw(E):
     E.db.execute('insert into raw_t (a) values (1)'); E.select(E.T); E.db.execute('insert into raw_t (a) values (2)')
 
 Q, W, WM = ['query', False], ['write', False, False], ['write', True, False]
+S = ['select', False]          # Database._exec_sql(start_transaction=False) without Query._actual_fetch's own prepare
+
+# --- sessions whose flush has NOTHING to write (cache.modified set, no statement), followed by each kind of database access
+def _n_create_delete(E): t = E.T(x=7); t.delete()
+def _n_add_remove(E):
+    t = E.T[1]; u = E.U[1]; t.us.add(u); t.us.remove(u)
+NOOPS = {'cd': (_n_create_delete, [['modify', [], False]], False),          # (body, model program, T[1] already loaded)
+         'ar': (_n_add_remove, [S, S, ['modify', [], False], S], True)}
+ACCESS = {'query': (lambda E: E.select(E.T), lambda loaded: [Q]),
+          'db_select': (lambda E: E.db.select('a from raw_t'), lambda loaded: [S]),
+          'db_get': (lambda E: E.db.get('count(*) from raw_t'), lambda loaded: [S]),
+          'db_exists': (lambda E: E.db.exists('a from raw_t'), lambda loaded: [S]),
+          'db_execute': (lambda E: E.db.execute('insert into raw_t (a) values (5)'), lambda loaded: [W]),
+          'lazy_load': (lambda E: list(E.T[1].us), lambda loaded: [S] if loaded else [S, S])}
+
+def _noop_shape(nk, ak):
+    nb, nprog, loaded = NOOPS[nk]
+    ab, aprog = ACCESS[ak]
+    def body(E): nb(E); ab(E)
+    return ({}, body, nprog + aprog(loaded), False)
+NOOP_SHAPES = ['noop_%s_%s' % (nk, ak) for nk in NOOPS for ak in ACCESS]
 def MOD(*ws): return ['modify', list(ws), False]
 SHAPES = {
     # name: (db_session options, body, model program, bodyRaises)
@@ -75,6 +96,8 @@ SHAPES = {
     'caught_read':     ({}, _b_caught_read_then_write, [['query', True], MOD(False)], False),
     'empty':           ({}, lambda E: None, [], False),
 }
+for _nk in NOOPS:
+    for _ak in ACCESS: SHAPES['noop_%s_%s' % (_nk, _ak)] = _noop_shape(_nk, _ak)
 CORE_SHAPES = ['read', 'optimistic', 'immediate', 'serializable', 'ddl']
 EXTRA_QUICK = ['ddl_commit_mid']      # non-core shapes that get the full pool coverage in the quick tier too
 POOLS = ['fresh', 'warm', 'dropped', 'disconnected']   # state of the thread-local pool when the session under test starts
@@ -136,6 +159,8 @@ def build(path, tr, timeout=0.25, hooks=0):
     with db_session:
         db.execute('create table if not exists raw_t (a int)')
         db.execute('create table if not exists zz (a int)')
+    with db_session:
+        T(x=1); U()             # T[1], U[1] for the shapes that work on existing objects
     db.disconnect()
     for i in range(hooks):          # registered after the set-up: the traced part starts with an empty pool anyway
         @db.on_connect(provider='sqlite')
@@ -418,6 +443,9 @@ def oracle(ctx, case, real):
             if st['pool_in_transaction']: problems.append('connection %d was returned to the pool inside an open transaction' % c)
         elif n == 0: problems.append('connection %d was neither returned to the pool nor closed (leaked%s)' % (c, ' into Pool.forked_connections' if c in st['forked'] else ''))
         elif n > 1: problems.append('close() was called %d times on connection %d' % (n, c))
+    for sess in real['sessions'][:test_i + 2]:
+        if 'release unlocked lock' in (sess.get('exc') or ''):
+            problems.append('session %r released a transaction lock it did not hold: %s' % (sess['name'], sess['exc']))
     # later sessions
     follow = real['sessions'][test_i + 1]
     if follow['outcome'] != 'ok': problems.append('a following session in the same thread failed: %s' % follow['exc'])
@@ -594,7 +622,7 @@ def violation_key(case, problem, real=None):
         return KNOWN_KEY_CONNECT_INIT
     kind = ('leak' if 'neither returned' in problem else 'double-close' if 'times on connection' in problem else
             'lock-held' if 'still held' in problem else 'blocked' if 'blocked' in problem else
-            'pooled-in-transaction' if 'inside an open transaction' in problem else 'later-session-failed' if 'following session' in problem else 'setup-sessions-failed' if 'fault-free sessions in a row' in problem else 'other')
+            'pooled-in-transaction' if 'inside an open transaction' in problem else 'later-session-failed' if 'following session' in problem else 'setup-sessions-failed' if 'fault-free sessions in a row' in problem else 'lock-not-held-released' if 'did not hold' in problem else 'other')
     return '%s:%s' % (kind, case_key(case))
 
 
@@ -652,7 +680,8 @@ def thread_case(workdir, tc):
         return pred()
     wait_for(lambda: a_holds.is_set() or 'A' in res, 3.0)
     if tc['others'] >= 1:
-        threads['B'] = runner('B', FOLLOW[0], FOLLOW[1]); threads['B'].start()
+        ob = SHAPES[tc['other_shape']] if tc.get('other_shape') else FOLLOW
+        threads['B'] = runner('B', ob[0], ob[1]); threads['B'].start()
         wait_for(lambda: ['B', 'acquire'] in tr.lock_waits or 'B' in res, 1.5)
     if tc['others'] >= 2:
         threads['C'] = runner('C', FOLLOW[0], FOLLOW[1]); threads['C'].start()
@@ -700,6 +729,12 @@ def thread_scenarios(ctx, workdir):
         for pt in points:
             tcs.append({'id': len(tcs), 'shape': shape, 'fault': pt, 'others': 2 if (len(tcs) % 3) else 1,
                         'exc_class': EXC_CLASSES[len(tcs) % len(EXC_CLASSES)]})
+    # another thread is inside its transaction while B runs a session whose flush has nothing to write
+    for i, sh in enumerate(NOOP_SHAPES):
+        if ctx.thorough or i % 3 == ctx.seed % 3:
+            for a_shape in (['optimistic', 'immediate', 'ddl'] if ctx.thorough else ['optimistic']):
+                tcs.append({'id': len(tcs), 'shape': a_shape, 'fault': None, 'others': 1 + (len(tcs) % 2), 'other_shape': sh,
+                            'exc_class': EXC_CLASSES[0]})
     try:
         reals = [thread_case(workdir, tc) for tc in tcs]
     except Exception as e:
@@ -707,10 +742,11 @@ def thread_scenarios(ctx, workdir):
     reqs, where = [], []
     for tc, r in zip(tcs, reals):
         inp = {'shape': tc['shape'], 'fault': list(tc['fault']) if tc['fault'] else None, 'others': tc['others'], 'exc_class': tc['exc_class'].__name__}
+        if tc.get('other_shape'): inp['thread_B_runs'] = tc['other_shape']
         tc['inp'] = inp
-        ctx.case(['threads', inp['shape'], inp['fault'], inp['others']], kind='threads:' + tc['shape'])
+        ctx.case(['threads', inp['shape'], inp['fault'], inp['others'], tc.get('other_shape')], kind='threads:' + tc['shape'] + (':noop-B' if tc.get('other_shape') else ''))
         ctx.count('threads-queued:%d' % len(r['queued']))
-        key = 'threads:shape=%s;fault=%s;others=%d' % (tc['shape'], '%s#%d' % tc['fault'] if tc['fault'] else '-', tc['others'])
+        key = 'threads:shape=%s;fault=%s;others=%d%s' % (tc['shape'], '%s#%d' % tc['fault'] if tc['fault'] else '-', tc['others'], (';B=' + tc['other_shape']) if tc.get('other_shape') else '')
         # ---- property oracle on the real threads
         problems = []
         if r['blocked']: problems.append('threads %s never finished; waiting: %r' % (r['blocked'], r['waits']))
@@ -737,7 +773,7 @@ def thread_scenarios(ctx, workdir):
             lock_lists.append([e[0] for e in evs if len(e) == 1])
             db = [e for e in evs if len(e) == 4]
             faults = [i for i, e in enumerate(db) if e[3] != 'ok']
-            o, b, prog, br = SHAPES[tc['shape']] if n == 'A' else FOLLOW
+            o, b, prog, br = SHAPES[tc['shape']] if n == 'A' else SHAPES[tc['other_shape']] if (n == 'B' and tc.get('other_shape')) else FOLLOW
             reqs.append({'op': 'run', 'init': {'n': 0, 'nextCon': 0, 'poolPid': False, 'closed': []},
                          'sessions': [dict(session_cfg(o, False), prog=prog, bodyRaises=br, faults=faults)]})
             where.append(('thread', tc, r, n, evs))
